@@ -57,7 +57,8 @@ def t_logging(src):
 
 
 def main():
-    props = ['C%02d' % i for i in range(1, 19)]
+    import json
+    props = [c['property_id'] for c in json.load(open(os.path.join(HERE, 'MANIFEST.json')))['checks']]
     known = {(e['property'], e['rule'], e['construct']) for e in load_known() if e.get('status') == 'finding'}
     src = sources()
     bad = 0
